@@ -16,9 +16,9 @@ import (
 type Kind int
 
 const (
-	KRoot Kind = iota // $
-	KCurrent          // @
-	KLast             // last
+	KRoot    Kind = iota // $
+	KCurrent             // @
+	KLast                // last
 	KNull
 	KTrue
 	KFalse
